@@ -34,8 +34,10 @@ Failing == [t |-> "filter", e |-> Lit(IntV(1)), name |-> "divided_by", args |-> 
 ElseC == [t |-> "else"]
 
 \* subjects and when-values of the case family
-SU == << IntV(1), Str(<<97>>), Nil, Flt(1, 1), Bool(TRUE), Arr(<<IntV(1)>>), IntV(2), Str(<<49>>) >>
-WhenLists == << <<1>>, <<2>>, <<7, 1>>, <<2, 8>>, <<3>>, <<4>>, <<5, 6>>, <<8, 7, 2>> >>   \* indices into SU
+\* (the last three: strings that hold the words and the punctuation of a when-list: "a or b", "a, b", "1 and contains")
+SU == << IntV(1), Str(<<97>>), Nil, Flt(1, 1), Bool(TRUE), Arr(<<IntV(1)>>), IntV(2), Str(<<49>>),
+         Str(<<97, 32, 111, 114, 32, 98>>), Str(<<97, 44, 32, 98>>), Str(<<49, 32, 97, 110, 100, 32, 99, 111, 110, 116, 97, 105, 110, 115>>) >>
+WhenLists == << <<1>>, <<2>>, <<7, 1>>, <<2, 8>>, <<3>>, <<4>>, <<5, 6>>, <<8, 7, 2>>, <<9>>, <<10, 2>>, <<11, 9>> >>   \* indices into SU
 
 Cases ==
   [g : {"chain"}, n : {1}, v1 : 1..NCU, v2 : {1}, v3 : {1}, els : BOOLEAN]
